@@ -2,7 +2,7 @@
 # False-alarm soak on the unchanged tree: the quick tier under other seeds,
 # then the thorough tier.  Evidence and replays go to a scratch directory.
 export VERIF_SCRATCH_OUT=${VERIF_SCRATCH_OUT:-/tmp/soak_out}
-for s in 2 3 4 5; do for p in C06 C07 C16 C19; do
+for s in 6 7; do for p in C06 C07 C16 C19; do
   VERIF_SEED=$s /venv/bin/python simcheck.py run $p --tier quick | grep -E "SUMMARY|VIOLATION|HARNESS" | sed "s/^/seed=$s /"
 done; done
 for p in C06 C16 C19 C07; do
